@@ -111,7 +111,7 @@ def _probes(rng, n_items):
 
 
 def plan(rng, tier):
-    cfg = common.draw_cfg(rng, p_stored=0.2, p_default_sizes=0.06)
+    cfg = common.draw_cfg(rng, p_stored=0.3, p_default_sizes=0.06)
     cfg["dom"]["nk"] = rng.choice([8, 12, 16, 24, 32, 48])
     pre = 0
     if cfg["leaf"] is None and is_tree(cfg["kind"]):
@@ -168,8 +168,19 @@ def plan(rng, tier):
                 q[1] = q[1][4:]
             q.append(_probes(rng, len(g.model.d)))
             queries.append(q)
+    commit = cfg["stored"] and rng.random() < 0.85
+    if commit:
+        # evict-between fault: the queried shape includes ghost nodes
+        out = []
+        for q in queries:
+            if rng.random() < 0.25:
+                out.append(["sweep", rng.choice(["minimize", "minimize",
+                                                 "incrgc", "some"]),
+                            rng.randrange(1 << 16)])
+            out.append(q)
+        queries = out
     return {"cfg": cfg, "build": build, "queries": queries,
-            "commit": cfg["stored"] and rng.random() < 0.8}
+            "commit": commit}
 
 
 def simplify(plan):
@@ -180,7 +191,7 @@ def simplify(plan):
         p["commit"] = False
         yield p
     for i, q in enumerate(plan["queries"]):
-        if q[0] in ("range", "seq") and q[6] == "pos":
+        if q[0] in ("range", "seq") and len(q) > 6 and q[6] == "pos":
             p = copy.deepcopy(plan)
             p["queries"][i][6] = "kw"
             yield p
@@ -265,7 +276,7 @@ def execute(plan, ctx):
         model.apply(op)
         ops.apply(c, op, dom, impl, kind)
     if conn is not None and plan.get("commit"):
-        conn.commit()
+        common.commit(conn, ctx)
     if not ops.same_value(ops.listing(c, mapping), model.listing()):
         raise Precondition("built contents differ from the model")
     shape = None
@@ -284,6 +295,21 @@ def execute(plan, ctx):
     nkeys = len(model.d)
     for q0 in plan["queries"]:
         name = q0[0]
+        if name == "sweep":
+            if conn is not None and plan.get("commit"):
+                if q0[1] == "some":
+                    nodes = conn.nodes()
+                    pick = set(o._p_oid for j, o in enumerate(nodes)
+                               if (q0[2] >> (j % 16)) & 1)
+                    n = conn.sweep("deactivate", pick)
+                elif q0[1] == "incrgc":
+                    n = conn.sweep("incrgc", 1 + q0[2] % 4)
+                else:
+                    n = conn.sweep("minimize")
+                if n:
+                    ctx.fault("evict-between", n)
+                ctx.ev("sweep", q0[1], n)
+            continue
         q = _none_keys(q0, dom)
         if name in ("minKey", "maxKey"):
             want = model.apply(q if q[1] not in ("omit",) else [name])
